@@ -14,6 +14,6 @@ Tree == [suites |-> [j \in DOMAIN SuiteIds |->
 
 Export == Done =>
    PrintT(<<"CASE", ToJson([fam |-> inp.fam, h |-> inp.h, s0 |-> inp.s0, s1 |-> inp.s1, cs |-> inp.cs,
-                            sk |-> inp.sk, n |-> inp.n, way |-> way, tgt |-> tgt, tree |-> Tree,
+                            sk |-> inp.sk, n |-> inp.n, vs |-> inp.vs, way |-> way, tgt |-> tgt, tree |-> Tree,
                             idents |-> idents, log |-> log, penv |-> P.env, pcwd |-> P.cwd])>>)
 =============================================================================
